@@ -48,12 +48,19 @@ type options struct {
 // Option is a function that updates the options associated with Raft.
 type Option func(options *options) error
 
+// The largest election timeout: the randomized election timeout is drawn from between
+// one and two election timeouts, and twice this value is still a duration.
+const maxElectionTimeout = time.Duration(1<<62 - 1)
+
 // WithElectionTimeout sets the election timeout for raft.
 func WithElectionTimeout(time time.Duration) Option {
 	return func(options *options) error {
 		// The randomized election timeout is drawn from a range of whole milliseconds.
 		if time != 0 && time.Milliseconds() < 1 {
 			return errors.New("election timeout must be at least one millisecond")
+		}
+		if time > maxElectionTimeout {
+			return errors.New("election timeout is too large")
 		}
 		options.electionTimeout = time
 		return nil
